@@ -11,6 +11,10 @@ Open Scope Z_scope.
    - a body is executed only when its coroutine is ACTIVE, at most once per
      process call, and at the end of the call nobody who was ACTIVE at its
      start or whose wait ran out in it is still owed a step (unless killed);
+     if a body raises (SwitchWorld, Quit, anything) the call is abandoned:
+     nobody runs after it in that call, and from the next call on everything
+     is as usual - the coroutines that had run and those that had not are all
+     owed a step, in their previous relative order, waits unaffected;
    - the coroutines that stayed runnable since they last ran come in the
      same relative order as then;
    - a coroutine that yields n > 0 is PAUSED with remaining time n, every
@@ -42,11 +46,13 @@ Proof. exact never_earlier. Qed.
 Print Assumptions C08_never_earlier.
 
 (* ... and it is in the log of the process call by which the accumulated dt
-   reaches r (never later). *)
+   reaches r (never later) - provided no body raises in that call ([calm]): a
+   call in which a body raises is abandoned at that point. *)
 Theorem C08_never_later :
   forall sc g frames t r dt log exc,
     alookup g (t_st t) = Some (SPaused r) ->
     frames_only frames = true -> quiet sc g (frames ++ [(Process dt, ObsP log exc)]) = true ->
+    calm sc log = true ->
     total_dt frames < r -> r <= total_dt frames + dt ->
     ok08 (sp_run sc t (frames ++ [(Process dt, ObsP log exc)])) = true ->
     In g (log_gids log).
@@ -57,7 +63,7 @@ Print Assumptions C08_never_later.
 Theorem C08_one_step_per_frame :
   forall sc g t dt log exc,
     alookup g (t_st t) = Some SAct ->
-    quiet sc g [(Process dt, ObsP log exc)] = true ->
+    quiet sc g [(Process dt, ObsP log exc)] = true -> calm sc log = true ->
     ok08 (sp_step sc t (Process dt) (ObsP log exc)) = true ->
     In g (log_gids log) /\ NoDup (log_gids log).
 Proof. exact one_step_per_frame. Qed.
@@ -81,6 +87,33 @@ Definition ex_ok : case :=
 Example C08_nonvacuous :
   wf_b ex_ok = true /\ known08_b ex_ok = false /\ accepts ex_ok = true /\ holds08_b ex_ok = true.
 Proof. vm_compute. auto. Qed.
+
+(* a frame interrupted by a coroutine that raises SwitchWorld (recorded from
+   /repo): 0 ran, 1 raised, 2 did not run; the next frames run 0 and 2 *)
+Definition ex_raise : case :=
+  mkCase [(0, [([], (RYield YNone)); ([], (RYield YNone)); ([], (RYield YNone));
+               ([], (RYield YNone)); ([], (RReturn (Some 1)))]);
+          (1, [([], (RYield YNone)); ([], (RRaise 1))]);
+          (2, [([], (RYield YNone)); ([], (RYield YNone)); ([(AState 1)], (RYield YNone));
+               ([], (RYield YNone)); ([], (RReturn (Some 2)))])]
+         [(Start 0, ObsR OOk); (Start 1, ObsR OOk); (Start 2, ObsR OOk);
+          (Process 8, ObsP [(0, 0, []); (1, 0, []); (2, 0, [])] OOk);
+          (Process 8, ObsP [(0, 1, []); (1, 1, [])] (ORaised 1));
+          (State 1, ObsR (OState 0)); (Value 1, ObsV None);
+          (Process 8, ObsP [(0, 2, []); (2, 1, [])] OOk);
+          (Process 8, ObsP [(0, 3, []); (2, 2, [(OState 0)])] OOk)] [0; 2].
+Example C08_interrupted_frame :
+  wf_b ex_raise = true /\ accepts ex_raise = true /\ holds08_b ex_raise = true.
+Proof. vm_compute. auto. Qed.
+(* what the code did before the repair 5fd221a: the frame after the
+   interrupted one skipped the coroutine that had already run *)
+Example C08_skipped_frame_rejected :
+  holds08_b (mkCase (c_scripts ex_raise)
+               [(Start 0, ObsR OOk); (Start 1, ObsR OOk); (Start 2, ObsR OOk);
+                (Process 8, ObsP [(0, 0, []); (1, 0, []); (2, 0, [])] OOk);
+                (Process 8, ObsP [(0, 1, []); (1, 1, [])] (ORaised 1));
+                (Process 8, ObsP [(2, 1, [])] OOk)] []) = false.
+Proof. vm_compute. reflexivity. Qed.
 
 (* a coroutine that waits for 1 and is resumed after 0.5 (too early), one
    that is resumed a frame late, and one that runs twice in a frame *)
